@@ -89,11 +89,17 @@ class ClientAuthenticator:
         self.negotiatingUnixFD = False
 
         if self.authMech == b'DBUS_COOKIE_SHA1':
+            try:
+                user = getpass.getuser().encode('ascii')
+            except UnicodeEncodeError:
+                # The bus looks the name up as ASCII text: with such a login
+                # name this mechanism cannot succeed, go on to the next one
+                return self.authTryNextMethod()
             self.sendAuthMessage(
                 b'AUTH '
                 + self.authMech
                 + b' '
-                + binascii.hexlify(getpass.getuser().encode('ascii'))
+                + binascii.hexlify(user)
             )
         elif self.authMech == b'ANONYMOUS':
             self.sendAuthMessage(
